@@ -363,8 +363,7 @@ def run(ctx):
         svs_sync.secrets.randbits = orig
     for k in ('suppression-entered', 'vector-heard-during-suppression', 'suppression-expiry-needed', 'suppression-expiry-not-needed',
               'periodic-expiry', 'publication', 'vector-newer', 'vector-self-too-much', 'vector-no-seq'):
-        if not ctx.events.get(k):
-            ctx.inconclusive(f'monitor {k} observed nothing')
+        ctx.need_event(k)
     ctx.assumptions = ['when suppression is entered is read from the instance (not part of the statement)',
                        'a vector containing a malformed entry may be merged without that entry or ignored entirely',
                        'timer jitter source (secrets.randbits) replaced by the seeded generator for reproducibility']
